@@ -170,7 +170,11 @@ def gen_plan(rng, tier, idx, opts):
             i = rng.randrange(len(live) - 1)
             ops.append({"op": "merge", "dst": live[i], "src": live[i + 1]})
             live.pop(i + 1)
-        return {"world": "results", "level": "result", "mode": mode, "type": tname, "accumulate": accumulate, "ops": ops}
+        out = {"world": "results", "level": "result", "mode": mode, "type": tname, "accumulate": accumulate, "ops": ops}
+        form = rng.choice(["bool", "bool", "bool", "np_bool", "int"])
+        if form != "bool":
+            out["acc_form"] = form
+        return out
     if level == "set":
         names = rng.sample(["SUM", "RATIO", "MISC", "CHOICE"], rng.randint(1, 4))
         ops = []
@@ -258,6 +262,13 @@ def _tree_shape(lists):
 
 def _exec_result(plan, res, log, pid, mode):
     tname, acc_flag = plan["type"], plan["accumulate"]
+    form = plan.get("acc_form", "bool")
+    if form == "np_bool":
+        acc_flag = np.bool_(acc_flag)          # e.g. accumulate_values=(n < limit) computed with numpy
+    elif form == "int":
+        acc_flag = int(acc_flag)
+    if form != "bool":
+        bump(res["probes"], "accumulate_flag_given_as_" + form)
     objs, model = {}, {}
     merges = 0
     empty_dst = False
@@ -318,12 +329,16 @@ def _exec_result(plan, res, log, pid, mode):
         for a, o in objs.items():
             if not model[a]:
                 continue
-            want, _ = expected_stats(model[a], tname, acc_flag)
+            want, ref_ = expected_stats(model[a], tname, acc_flag)
             got = stats_of(o, tname)
             why = compare_stats(got, want, tname, mode, model[a])
-            if why is None and acc_flag and tname != "MISC":
+            if why is None and acc_flag is True and tname != "MISC":
                 if list(o._value_list) != [x[0] for x in model[a]] or (tname == "RATIO" and list(o._total_list) != [x[1] for x in model[a]]):
                     why = "accumulated value list %s is not the list of observations %s" % (o._value_list, [x[0] for x in model[a]])
+            if why is None and tname != "MISC" and (list(o._value_list) != list(ref_._value_list) or list(o._total_list) != list(ref_._total_list)):
+                # whatever the library makes of this form of the flag, splitting and merging must keep what ONE object keeps
+                why = "accumulated lists %s / %s differ from those of one object accumulating the same observations %s / %s (flag %r)" % (
+                    list(o._value_list), list(o._total_list), list(ref_._value_list), list(ref_._total_list), acc_flag)
             if why:
                 add_violation(res, pid + ".grouping", step, "accumulator %s (%s, %d observations, after %s): %s" % (
                     a, tname, len(model[a]), kind, why), {"type": tname, "op": kind, "level": "result"})
@@ -551,6 +566,10 @@ def shrink(plan):
         if plan["mode"] != "exact":
             c = P()
             c["mode"] = "exact"
+            yield c
+        if plan.get("acc_form"):
+            c = copy.deepcopy(plan)
+            c.pop("acc_form")
             yield c
         if plan["level"] == "result" and plan.get("accumulate"):
             c = P()
